@@ -5,7 +5,7 @@ from pathlib import Path
 import os
 base = Path(os.environ.get('MUT_BASE', '/tmp/mut'))
 out = base / 'out'; dst = Path('/verif/seeded')
-for d in sorted(out.glob('C*/[a-h]')):
+for d in sorted(out.glob('C*/[a-z]')):
     c = d / 'confirm.json'
     if not c.exists():
         continue
